@@ -1,5 +1,6 @@
 """Robustness rules shared by C09 (xcmp) and C10 (hexasm): exception discipline, use-after-move, checked downcasts,
 lexer termination at end of input."""
+import os
 import re
 from . import cast, flow, ivinterp
 from .ivinterp import IV, Obj, Vec, const, NeedSplit, Thrown
@@ -319,3 +320,92 @@ def lexer_terminates(idx, ns, first_bytes, entry='getNextToken', budget=40):
         except NeedSplit as e:
             raise AnalysisBroken('lexer interpretation not concrete: %s' % e)
     return problems
+
+
+# ------------------------------------------------------------------------------------------------
+# recursion depth (stack exhaustion on deeply nested input)
+# ------------------------------------------------------------------------------------------------
+# Largest accepted guard constant.  Calibration, not a proof: at -O0 (the project's default build) the tools crash at 9 024 .. 65 431
+# levels of nesting on an 8 MB stack (about 930 bytes per level in the code generator, measured on the pinned tree); the syntax
+# tree can be twice as deep as the parser's nesting (rewriting of ~=, >=, <=), so 2 000 levels stay below half the stack.
+MAX_ACCEPTED_DEPTH_BOUND = 2000
+_REC_FIXTURE = os.path.join(os.path.dirname(os.path.abspath(__file__)), 'fixtures', 'recursion.cpp')
+_REC_EXPECT = {'fixture::Node::accept': 'structural', 'fixture::Reader::selfRecursive': 'unbounded', 'fixture::Reader::mutualA': 'unbounded',
+               'fixture::Reader::guardedInline': 'guarded', 'fixture::Reader::guardedRaii': 'guarded', 'fixture::Reader::guardTooLate': 'unbounded'}
+
+
+def _tree_descent_methods(idx, base):
+    """The overriders of the pure virtual method(s) of the syntax-tree base class that take a visitor: one call = one level down."""
+    rec = idx.records.get(base)
+    if rec is None:
+        return None
+    out = set()
+    from .callgraph import overriders
+    for m in rec.methods:
+        if (m.node.get('pure') or m.node.get('virtual')) and any('Visitor' in qt(p) for p in m.params):
+            for o in overriders(idx, m):
+                out.add(o.id)
+                if getattr(o, 'defn', None):
+                    out.add(o.defn.id)
+    return out
+
+
+def recursion_fixture_verdicts():
+    import subprocess
+    from . import frontend as fe
+    from .callgraph import CallGraph, decide_cycles
+    cmd = [fe.CLANG, '-std=c++17', '-w', '-fsyntax-only', '-fplugin=' + fe.plugin_path(), '-Xclang', '-plugin', '-Xclang', 'dumprepo',
+           '-Xclang', '-plugin-arg-dumprepo', '-Xclang', os.path.dirname(_REC_FIXTURE) + '/', _REC_FIXTURE]
+    r = subprocess.run(cmd, stdout=subprocess.PIPE, stderr=subprocess.PIPE, text=True)
+    if r.returncode != 0:
+        raise AnalysisBroken('cannot analyse the recursion fixture: ' + r.stderr[-1500:])
+    objs = fe._split_json(r.stdout)
+    for o in objs:
+        fe._annotate(o, fe._Pos())
+    idx = cast.Index(objs)
+    cg = CallGraph(idx)
+    reach = cg.reachable([f for f in idx.all_funcs() if f.name == 'entry'])
+    S = _tree_descent_methods(idx, 'fixture::Node') or set()
+    return {d['names'][0]: d['kind'] for d in decide_cycles(idx, cg, reach, S)}
+
+
+def rule_recursion(rep, rid, tu, tree_base=None, min_reachable=40):
+    """Every recursive cycle of the call graph reachable from main() is depth-bounded (see hexsa/callgraph.py)."""
+    from .callgraph import CallGraph, decide_cycles
+    got = recursion_fixture_verdicts()
+    if got != _REC_EXPECT:
+        raise AnalysisBroken('recursion rule does not classify its control fixture as expected: %r' % got)
+    idx = cast.load(tu)
+    cg = CallGraph(idx)
+    mains = [f for f in idx.all_funcs() if f.name == 'main' and f.body is not None and not f.cls]
+    if len(mains) != 1:
+        raise AnalysisBroken('%s: main() not found' % tu)
+    reach = cg.reachable(mains)
+    if len(reach) < min_reachable:
+        raise AnalysisBroken('%s: only %d functions reachable from main (confirmed >= %d): the call graph is incomplete' % (tu, len(reach), min_reachable))
+    S = set()
+    if tree_base:
+        S = _tree_descent_methods(idx, tree_base)
+        if not S:
+            raise AnalysisBroken('%s: syntax-tree base class %s with a visitor-taking virtual method not found' % (tu, tree_base))
+    cycles = decide_cycles(idx, cg, reach, S)
+    unb = [c for c in cycles if c['kind'] == 'unbounded']
+    rep.add(rid, '%s:call-graph' % tu, True, tu, '%d functions with a body, %d reachable from main, %d recursive components' % (
+        len(cg.nodes), len(reach), len(cycles)), nontrivial=False)
+    for c in cycles:
+        key = '%s:cycle:%s' % (tu, c['names'][0]) + ('+%d' % (len(c['names']) - 1) if len(c['names']) > 1 else '')
+        if c['kind'] == 'guarded':
+            big = [b for b in c['bounds'] if b > MAX_ACCEPTED_DEPTH_BOUND]
+            rep.add(rid, key, not big, c['where'], c['detail'] if not big else
+                    'depth guard constant %s exceeds %d levels: at about 1 kB of stack per level in the passes over the tree the default 8 MB '
+                    'stack is exhausted before the guard fires [%s]' % (big, MAX_ACCEPTED_DEPTH_BOUND, c['detail']), data={'functions': c['names']})
+        elif c['kind'] == 'structural':
+            rep.add(rid, key, not unb, c['where'], c['detail'] + ('' if not unb else
+                    '; but the depth of the tree is not bounded: the recursion through %s has no depth bound' % ', '.join(u['names'][0] for u in unb)),
+                    data={'functions': c['names']})
+        else:
+            rep.add(rid, key, False, c['where'], c['detail'] + ': one stack frame per nesting level of the input, a few 10 kB of source exhaust the stack',
+                    data={'functions': c['names']})
+    for f in sorted(reach):
+        rep.analysed(cg.nodes[f].sig, tu)
+    return cycles
